@@ -13,9 +13,11 @@ NOT a theorem here: INDEPENDENCE of a copy ("shares no mutable state").  Lean va
 so the statement has no content for the model; it is checked on the implementation only
 (harness/props/c13.py, `oracle_independence`) and labelled correspondence-only in the evidence.
 
-The model of `_decomposeComponent` is that of the code WITH repo_fixes/C13-decompose-shallow.diff
-(the unfixed code raises AssertionError for a shallow-loaded glyph whose own identifiers recur in
-the base glyph).
+The model is that of the code with the defcon fixes "decomposing a component of a glyph whose contours
+are still shallow loaded …" (repo_fixes/C13-decompose-shallow.diff, found by this check) and "lazily
+loaded contours reserve their identifiers until they are fully loaded" (C10-6): the loading pen
+registers the identifiers it stores, `deepen` hands them over.  The Lean witness of the former defect
+(`unfixed_decompose_shallow_violated`) was stated about the pre-C10-6 loading pen and was removed with it.
 -/
 import DefconModel.Lemmas.Pen
 
@@ -134,38 +136,88 @@ theorem drawShallow_eq (g g' : Glyph R) (raws : List (RawContour R)) (hs : g.sha
   | nil => simp [Glyph.draw, Glyph.outline, hs, hinv, slotsOf]
   | cons c cs => simp [Glyph.draw, Glyph.outline, hs, hinv, drawRaw_eq]
 
-/-- Deepening succeeds exactly when the stored identifiers are new and distinct. -/
+/-- Deepening hands the reserved identifiers over to the contour and point objects and never collides:
+a duplicate-free registry and pairwise distinct stored identifiers suffice (whether or not the stored
+identifiers were reserved in the registry). -/
 theorem deepen_accepts (g : Glyph R) (raws : List (RawContour R)) (hs : g.shallow = some raws)
-    (h : (g.ids ++ present (slotsOf (raws.map RawContour.toContour))).Nodup) :
-    ∃ g', deepen g = .ok g' := ⟨_, deepen_ok hs h⟩
+    (hn : g.ids.Nodup) (hr : (rawIdents raws).Nodup) :
+    ∃ g', deepen g = .ok g' ∧ g'.ids = releaseAll g.ids (rawIdents raws) ++ rawIdents raws ∧ g'.ids.Nodup := by
+  have h := nodup_handover g.ids (rawIdents raws) hn hr
+  refine ⟨_, deepen_ok hs (by rw [← rawIdents_eq]; exact h), ?_, ?_⟩
+  · simp [rawIdents_eq]
+  · simpa [rawIdents_eq] using h
+
+/-- While a glyph is shallow-loaded, the identifiers of its stored contours and points are RESERVED in
+its registry: a strict pen asserts on them, a pen with `skipConflictingIdentifiers` drops them. -/
+theorem reserved_identifier_conflicts (s : PenSt R) (x : Ident) (hx : x ∈ s.g.ids) (k : Component R)
+    (p : Point R) (hk : k.ident = some x) (hp : p.ident = some x) :
+    stepCore false s (.beginPath (some x)) = .error .assertion ∧
+    stepCore false s (.addComponent k) = .error .assertion ∧
+    (s.cur.isSome → stepCore false s (.addPoint p) = .error .assertion) ∧
+    stepCore true s (.beginPath (some x)) = .ok { s with cur := some ⟨none, []⟩ } ∧
+    stepCore true s (.addComponent k) =
+      .ok { s with g := { s.g with components := s.g.components ++ [{ k with ident := none }] } } := by
+  refine ⟨?_, ?_, ?_, ?_, ?_⟩
+  · simp [stepCore, penBeginPath, claim, hx, bind, Except.bind]
+  · simp [stepCore, penAddComponent, claim, hk, hx, bind, Except.bind]
+  · intro hc
+    cases hcur : s.cur with
+    | none => simp [hcur] at hc
+    | some c => simp [stepCore, penAddPoint, hcur, claim, hp, hx, bind, Except.bind]
+  · simp [stepCore, penBeginPath, effIdent, claim, hx, bind, Except.bind]
+  · simp [stepCore, penAddComponent, effIdent, claim, hk, hx, bind, Except.bind]
 
 section Fresh
 variable [OfNat R 0] [OfNat R 1]
 
 /-- Every source state shows the same data: for valid content, the glyph assembled through the API
 (`new`), the glyph as `Layer.loadGlyph` leaves it (`shallow`) and the loaded glyph after its contours
-were touched (`full`) all exist and have the content's observable data and call stream. -/
+were touched (`full`) all exist and have the content's observable data and call stream; and in all
+three the registry holds exactly the content's identifiers (the shallow one by reservation). -/
 theorem source_states_agree (n : Option String) (c : Content R) (h : c.Valid) :
     ∃ gNew gShallow gFull,
       Glyph.ofContent (Glyph.fresh n) c = .ok gNew ∧
       Glyph.load (Glyph.fresh n) c = .ok gShallow ∧
       deepen gShallow = .ok gFull ∧
       gNew.obs = c.obs ∧ gShallow.obs = c.obs ∧ gFull.obs = c.obs ∧
-      gShallow.shallow = some (c.contours.map Contour.toRaw) ∧ gFull.shallow = none ∧ gFull.contours = c.contours := by
+      gShallow.shallow = some (c.contours.map Contour.toRaw) ∧ gFull.shallow = none ∧ gFull.contours = c.contours ∧
+      gNew.ids = c.allIdents ∧ gShallow.ids.Perm c.allIdents ∧ gFull.ids.Perm c.allIdents := by
   have hl := load_fresh n c h
-  have hperm : ((present (compSlots c.components) ++ present (c.guidelines.map (·.ident)) ++
-      present (c.anchors.map (·.ident))) ++ present (slotsOf c.contours)).Nodup := by
-    have h' := h
-    unfold Content.Valid Content.allIdents identsOf at h'
-    exact (perm_load _ _ _ _).nodup_iff.mpr (by simpa using h')
-  refine ⟨_, _, _, ofContent_fresh n c h, hl, deepen_ok rfl ?hnd, ?_, ?_, ?_, rfl, rfl, ?_⟩
-  case hnd => simpa [List.append_assoc] using hperm
+  have h' := h
+  unfold Content.Valid Content.allIdents identsOf at h'
+  have hperm := perm_load (present (slotsOf c.contours)) (present (compSlots c.components))
+    (present (c.guidelines.map (·.ident))) (present (c.anchors.map (·.ident)))
+  have hv := hperm.nodup_iff.mpr (by simpa using h')
+  have hassoc : present (slotsOf c.contours) ++ present (compSlots c.components) ++
+      present (c.guidelines.map (·.ident)) ++ present (c.anchors.map (·.ident)) =
+      present (slotsOf c.contours) ++ (present (compSlots c.components) ++
+      present (c.guidelines.map (·.ident)) ++ present (c.anchors.map (·.ident))) := by
+    simp [List.append_assoc]
+  have hrel : releaseAll (present (slotsOf c.contours) ++ present (compSlots c.components) ++
+      present (c.guidelines.map (·.ident)) ++ present (c.anchors.map (·.ident)))
+      (rawIdents (c.contours.map Contour.toRaw)) =
+      present (compSlots c.components) ++ present (c.guidelines.map (·.ident)) ++
+      present (c.anchors.map (·.ident)) := by
+    rw [rawIdents_eq, map_toRaw_toContour, hassoc]
+    exact releaseAll_append_left _ _ (hassoc ▸ hv)
+  have hfull : (present (compSlots c.components) ++ present (c.guidelines.map (·.ident)) ++
+      present (c.anchors.map (·.ident)) ++ present (slotsOf c.contours)).Perm
+      (present (slotsOf c.contours) ++ present (compSlots c.components) ++
+      present (c.guidelines.map (·.ident)) ++ present (c.anchors.map (·.ident))) := by
+    rw [hassoc]; exact perm_handover _ _
+  refine ⟨_, _, _, ofContent_fresh n c h, hl, deepen_ok rfl ?hnd, ?_, ?_, ?_, rfl, rfl, ?_, rfl, ?_, ?_⟩
+  case hnd =>
+    simp only [hrel, map_toRaw_toContour]
+    exact hfull.nodup_iff.mpr hv
   · simp [Glyph.obs, Content.obs, Glyph.draw, Content.draw]
   · simp only [Glyph.obs, Content.obs, draw_eq_outline, Content.draw]
     rw [outline_of_shallow (raws := c.contours.map Contour.toRaw) rfl rfl]
     simp
   · simp [Glyph.obs, Content.obs, Glyph.draw, Content.draw]
   · simp
+  · simpa [Content.allIdents, identsOf] using hperm
+  · simp only [hrel, map_toRaw_toContour]
+    exact hfull.trans (by simpa [Content.allIdents, identsOf] using hperm)
 
 /-! ## 3. Copies -/
 
@@ -421,8 +473,9 @@ example : (build false exA.draw (Glyph.fresh none)).toOption.map (·.draw) = som
 example : (build false exA.draw (Glyph.fresh none)).toOption.map (·.ids) = some ["c1", "p2", "p1", "c3"] := by decide
 /-- a repeated identifier is rejected -/
 example : build false (drawContour exCurve ++ drawContour exCurve) (Glyph.fresh (none : Option String)) = (.error .assertion : Except Err (Glyph Int)) := by decide
-/-- shallow, full and new states of the same content: same stream; the shallow one has not registered its contour identifiers -/
-example : (exShallow "A" exA).shallow.isSome = true ∧ (exShallow "A" exA).ids = ["g1", "a1"] ∧
+/-- shallow, full and new states of the same content: same stream; the shallow one holds its contour and
+point identifiers by reservation -/
+example : (exShallow "A" exA).shallow.isSome = true ∧ (exShallow "A" exA).ids = ["c1", "p2", "p1", "c3", "g1", "a1"] ∧
     (exShallow "A" exA).draw = exA.draw ∧ (exGlyph "A" exA).draw = exA.draw ∧
     (deepen (exShallow "A" exA)).toOption.map (·.draw) = some exA.draw := by decide
 /-- copy of a shallow source into a fresh glyph: all data equal, name its own -/
@@ -464,20 +517,22 @@ example : segRoundTrip ([] : List (Point Int)) = some [] := by decide
 example : segRoundTrip [(⟨0, 0, none, false, none, none⟩ : Point Int), ⟨4, 0, none, false, none, none⟩, ⟨0, 0, none, false, none, none⟩] =
     some (drawContour ⟨none, [⟨0, 0, none, false, none, none⟩, ⟨4, 0, none, false, none, none⟩]⟩) := by decide
 
-/-- The defect repaired by repo_fixes/C13-decompose-shallow.diff, on the model of the code as it was:
-a shallow-loaded glyph whose own contour identifiers (`c1`, `p1`) recur in the base glyph. -/
+/-- a shallow-loaded glyph whose own contour identifiers (`c1`, `p1`) recur in the base glyph (the
+situation of the defect repaired by defcon commit "fix: decomposing a component of a glyph whose
+contours are still shallow loaded …", repo_fixes/C13-decompose-shallow.diff) -/
 def exDShallow : Glyph Int := exShallow "D" exD
 
-/-- unfixed code: AssertionError (the incoming `c1` is registered first, deepening the own contour then collides) -/
-theorem unfixed_decompose_shallow_violated :
-    decomposeAtUnfixed 8 exLayer exDShallow 0 = .error .assertion ∧
-    (decomposeAtUnfixed 8 exLayer (exGlyph "D" exD) 0).toOption.isSome = true := by decide
-
-/-- fixed code: the shallow-loaded glyph decomposes exactly like the new / fully loaded one -/
+/-- the shallow-loaded glyph decomposes exactly like the new / fully loaded one, the conflicting
+identifiers `c1`, `p1` of the base glyph being dropped -/
 theorem fixed_decompose_shallow_agrees :
     (decomposeAt 8 exLayer exDShallow 0).toOption.map (·.draw) =
       (decomposeAt 8 exLayer (exGlyph "D" exD) 0).toOption.map (·.draw) ∧
     (decomposeAt 8 exLayer exDShallow 0).toOption.isSome = true := by decide
+
+/-- reservation at work: a strict pen cannot take `c1` while the glyph is still shallow, a skipping pen drops it -/
+example : (build false [.beginPath (some "c1"), .endPath] exDShallow) = .error .assertion ∧
+    (build true [.beginPath (some "c1"), .endPath] exDShallow).toOption.map (·.contours.map (·.ident)) =
+      some [some "c1", none] := by decide
 
 end Examples
 
